@@ -17,6 +17,7 @@ RULE = ("generated domain expressions (primitives, nested + - &, translate, rota
         "products incl. dependent first factor) with k in {0,1,2,3,5,8} parameter rows; the box is compared with twin "
         "points (20000 proposals per row), twin support points and the library's own samples; non-trivial = at least 50 "
         "domain points were tested against a returned box; distinct = (expression shape, k class, dependence, consumer)")
+RULE += '; 3-D rotations with a constant matrix; a sixth of the cases at length scales 0.01 / 0.05 / 30 / 300'
 REQUIRED_REACH = ["Circle.bounding_box", "Sphere.bounding_box", "Parallelogram.bounding_box", "Triangle.bounding_box",
                   "Interval.bounding_box", "ShapelyPolygon.bounding_box", "UnionDomain.bounding_box", "CutDomain.bounding_box",
                   "IntersectionDomain.bounding_box", "ProductDomain.bounding_box", "Translate.bounding_box",
